@@ -11,6 +11,7 @@ import (
 	"github.com/csgura/fp/list"
 	"github.com/csgura/fp/ord"
 	"github.com/csgura/fp/seq"
+	"math"
 	"time"
 )
 
@@ -407,4 +408,29 @@ func VH_c10_seq_aliased_views() {
 	}
 	want := (k == len(a) && k < len(b)) || (k < len(a) && k < len(b) && a[k] < b[k])
 	zz.Assert(o.Less(a, b) == want, "Seq (views of one array): lexicographic")
+}
+
+// ---- floats: a concrete catalogue (the engine does not reason about floats symbolically). ord.Given on floats
+// is a total preorder on the catalogue: exactly one of Less(a,b), Less(b,a), Eqv(a,b), also with NaN operands
+// (the library treats NaN as equivalent to everything), Compare/LessEq/Min/Max/Reversed consistent.
+func VH_c10_float_catalogue() {
+	nan := math.NaN()
+	cat := []float64{nan, -1.5, 0, math.Copysign(0, -1), 2, math.Inf(1), math.Inf(-1)}
+	a := cat[zz.Choice("a", len(cat))]
+	b := cat[zz.Choice("b", len(cat))]
+	o := ord.Given[float64]()
+	lab, lba, e := o.Less(a, b), o.Less(b, a), o.Eqv(a, b)
+	zz.Assert(b2i(lab)+b2i(lba)+b2i(e) == 1, "Given[float64]: exactly one of Less(a,b), Less(b,a), Eqv(a,b)")
+	zz.Assert(o.Eqv(b, a) == e, "Given[float64]: Eqv symmetric")
+	c := o.Compare(a, b)
+	zz.Assert((c < 0) == lab && (c > 0) == lba && (c == 0) == e, "Given[float64]: Compare sign agrees with Less/Eqv")
+	zz.Assert(o.LessEq(a, b) == (lab || e), "Given[float64]: LessEq = Less or Eqv")
+	r := o.Reversed()
+	zz.Assert(r.Less(a, b) == lba && r.Less(b, a) == lab && r.Eqv(a, b) == e, "Given[float64]: Reversed flips")
+	if a == a && b == b {
+		zz.Assert(lab == (a < b), "Given[float64]: Less is < on ordinary numbers")
+	}
+	o32 := ord.Given[float32]()
+	x, y := float32(a), float32(b)
+	zz.Assert(b2i(o32.Less(x, y))+b2i(o32.Less(y, x))+b2i(o32.Eqv(x, y)) == 1, "Given[float32]: exactly one of Less(a,b), Less(b,a), Eqv(a,b)")
 }
